@@ -28,5 +28,7 @@ verus! {
 //@include ghost_lm_opt_cw.rs
 //@include_subst ghost_lf.rs u8=char
 //@include_subst ghost_c04.rs u8=char
+//@include_subst ghost_c11_core.rs u8=char
+//@include ghost_c11_cw.rs
 } // verus!
 fn main() {}
